@@ -337,6 +337,17 @@ theorem exclTmp_blocks_saves_after_crash {U : Type} (C : Codec U) (hC : C.Lawful
   · rw [h.1]; exact load_ser C hC old
   · rw [h.2.2]; exact load_ser C hC old
 
+/-- **"keep a backup" before the final rename — what fails.** With `rename(store, store.bak)` inserted just before
+`rename(tmp, store)` the run passes through a state — between the two calls — in which the store path does not
+exist: a kill there (and a power loss) leaves no store, the loader fails with ENOENT, start-up aborts. Byte
+counts of the write never reach this instant; the `syscall` engine kills at every call boundary. -/
+theorem backupRename_not_kill_safe {U : Type} (C : Codec U) (old new : U) :
+    ∃ fs ∈ trace (C.ser new) none progBackupRename 0 (startRun (initFS (C.ser old))),
+      afterKill fs = none ∧ load C (afterKill fs) = none ∧ PostCrash fs none := by
+  refine ⟨{ inodes := [⟨C.ser old, true⟩, ⟨C.ser new, true⟩], target := none, thist := [none, some 0], tmps := [(1, 1)],
+            isLink := false, dest := none }, ?_, rfl, rfl, ⟨none, by simp, rfl⟩⟩
+  simp [trace, progBackupRename, enabled, faultAt, execOp, execOk, interm, writeBytes, upd, startRun, initFS, freshName]
+
 /-- **F14 witness.** Without the final look at the queue: change acknowledged, context cancelled, the first
 `select` takes `ctx.Done()`, the goroutine returns — `Stop` returns with the change not on disk. -/
 theorem noDrain_loses_acknowledged_change : ∃ s, Reach progNoDrain s ∧ s.exited = true ∧ s.disk < s.acked := by
@@ -361,6 +372,7 @@ end SSV.C20
 #print axioms SSV.C20.createTemp_name_fresh
 #print axioms SSV.C20.symlink_store_link_replaced
 #print axioms SSV.C20.exclTmp_blocks_saves_after_crash
+#print axioms SSV.C20.backupRename_not_kill_safe
 #print axioms SSV.C20.toy_lawful
 #print axioms SSV.C20.ack_saved_before_stop
 #print axioms SSV.C20.exit_only_after_cancel
